@@ -20,7 +20,7 @@ def plan(tier, seed):
         specs = [(1, 1, 9), (2, 1, 9), (3, 1, 9), (4, 1, 9), (5, 0, 3)]
     else:
         specs = [(1, 2, 9), (2, 2, 9), (3, 2, 9), (4, 2, 9), (5, 1, 9), (6, 0, 3)]
-    chunks = []
+    chunks = [{'kind': 'inventory'}]
     for n, u, maxp in specs:
         chunks += sweep.shape_chunks([(n, u)], per_chunk=12, maxp=maxp)
     return {
@@ -131,7 +131,27 @@ def ops_for(n):
     ops = [('punctuation_verylow', None), ('punctuation_root', None), ('punctuation_symetrify', None)]
     for j in range(2, n + 1):
         ops.append(('punctuation_symetrify', 'P%d' % j))
+    if n >= 2:
+        ops.append(('punctuation_symetrify', 'P2$'))      # a label no token carries, but P2 is a part of it
     return ops
+
+
+INVENTORY_SHAPES = [((1, 2), 3), ((1, (2, 3)), 4), (1, (2, 3)), (((1, 2), 3, 4),), ((1, 2, 3), (4, 5))]
+
+
+def inventory_cases():
+    """Every symbol of the punctuation inventories at every position of a few fixed shapes."""
+    for sym in sorted(PUNCT):
+        for sh in INVENTORY_SHAPES:
+            n = len(model.leaves(sh))
+            root = model.decorate(sh, lambda p, s: 'N' + ''.join(map(str, p)))
+            for pos in range(n):
+                for other in ('w', '"'):
+                    ws = ['w'] * n
+                    ws[pos] = sym
+                    if other != 'w' and n > 2:
+                        ws[(pos + 2) % n] = other
+                    yield model.MT(1, model.mk_tokens(n, words=ws), root)
 
 
 def check_case(case):
@@ -141,6 +161,21 @@ def check_case(case):
 
 def run_chunk(chunk):
     res = Result()
+    if chunk.get('kind') == 'inventory':
+        with quiet():
+            last = None
+            for mt in inventory_cases():
+                j = mt.to_json()
+                for op, relc in ops_for(mt.n())[:4]:
+                    vs, nmoved = check_one(j, op, relc, None)
+                    res.evals += 1
+                    res.nontrivial += 1 if nmoved else 0
+                    res.outcome((mt.key(), op, relc, nmoved, len(vs)))
+                    for v in vs:
+                        res.violation(v['kind'], v['where'], v['case'], v['detail'], v['what'])
+                    last = {'tree': model.mt_str(mt.root, mt.toks), 'op': op}
+            res.sample(last)
+        return res
     with quiet():
         n = chunk['n']
         words = list(word_assignments(n, chunk['maxp']))
